@@ -3,6 +3,7 @@
 pub mod alloc_probe;
 pub mod circuit;
 pub mod engine;
+pub mod fuzz_support;
 pub mod gen;
 pub mod oracle;
 pub mod props;
